@@ -60,6 +60,13 @@ OPS = ['add_uid_B', 'add_uid_img', 'add_uid_empty', 'add_sub_sign', 'add_sub_enc
 
 ROOTS = ['ed25519a', 'ecdsa_p256a', 'rsa2048a']
 
+# histories beyond the quick depth bound that showed a defect in the thorough tier: explored again on every run (their states and all their prefixes)
+DEEP_HISTORIES = [
+    ('ed25519a', ['recert_A_P2', 'add_uid_B', 'add_uid_empty', 'recert_A_P3_same_second']),
+    ('ed25519a', ['recert_A_P2', 'add_uid_B', 'add_uid_img', 'recert_A_P3_same_second']),
+    ('ecdsa_p256a', ['add_uid_B', 'recert_A_P2', 'add_uid_empty', 'recert_A_P3_same_second', 'copy']),
+]
+
 
 class Model(object):
     def __init__(self):
